@@ -15,9 +15,10 @@
 EXTENDS Integers, Sequences, FiniteSets, TLC
 
 \* "other": a different, perfectly valid prefix (the addresses of the message stay under the usual one)
-PrefixClasses == {"ok", "upper", "mixed", "empty", "toolong", "badchar", "other"}
+\* ("nonascii": a letter outside ASCII whose code point, truncated to a byte, would fall into the printable range)
+PrefixClasses == {"ok", "upper", "mixed", "empty", "toolong", "badchar", "nonascii", "other"}
 \* ("extprefix": a checksum-valid address whose prefix merely STARTS with the section's prefix, e.g. osmovaloper1... under osmo)
-AddrClasses   == {"ok", "wrongprefix", "extprefix", "badchecksum", "notbech32", "upper", "empty"}
+AddrClasses   == {"ok", "wrongprefix", "extprefix", "badchecksum", "notbech32", "upper", "mixedcase", "empty"}
 OptAddrClasses == AddrClasses \cup {"none"}
 \* ("dupfar" / "dupcasefar": the repetition is NOT next to its first occurrence)
 ListClasses   == {"ok", "empty", "dup", "onewrongprefix", "oneextprefix", "onebadchecksum", "dupcase", "dupfar", "dupcasefar"}
